@@ -414,7 +414,7 @@ def cmp_c16_r(payload, impl, model):
 
 PROPS["C16"] = dict(
     coq="Properties_C16",
-    level_text="Proved in Coq on the encoder models with a sticky-error writer: for every token sequence and every fault plan (which Write call, kind error/short/both, fail-stop or fail-once) whose faulty call lies within the writes the document needs, the run returns an error at the step that performed the faulty write (never a silent success). Reader side: truncation theorem on the decoder models (every proper prefix of a well-formed item ends in an end-of-input error), which together with the reader model's error propagation gives: a reader fault strictly inside an item surfaces as that error. Tied to the code by exhaustive fault enumeration per document: every Write index x 3 kinds x 2 modes; every byte offset x 2 modes.",
+    level_text="Proved in Coq on the encoder models with a sticky-error writer (FaultProof.v): for every token sequence and every fault plan (which Write call, kind error/short/both, fail-stop or fail-once) whose faulty call lies within the writes the document needs, the run returns an error at or before the token on which the fault-free run would have finished (never a silent success); a plan beyond the document's writes changes nothing. Reader side (TruncProof.v): for every well-formed CBOR item and every cut strictly inside it the decoder model fails with an end-of-input error; for JSON every cut inside a non-bare-number item fails — with an end-of-input error except when the cut falls right after a number text that is unrepresentable on its own, which is reported as malformed (the plain statement is refuted by a kernel-checked counterexample); never a value. Tied to the code by exhaustive fault enumeration per document: every Write index x 3 kinds x 2 modes; every byte offset x 2 modes.",
     level_note="Trusted: Coq kernel, extraction, driver, harness; the sticky-writer behaviour (every writing Step returns the recorded error) is part of the hand-written encoder models and pinned by the enumeration. Reader faults are modelled as end-of-stream with a distinguished error. No axioms.",
     rule="wfault: document x write index x kind x mode; rfault: document x byte offset x mode; non-trivial = the fault position lies inside the document; distinct by payload",
     trusted_base=TB_COMMON,
@@ -466,7 +466,7 @@ def cmp_c10(payload, impl, model):
 
 PROPS["C10"] = dict(
     coq="Properties_C10",
-    level_text="Proved in Coq as compositions of the codec theorems over the lock-step pump model: JSON->CBOR of any text the reference reading accepts writes the RFC 7049 encoding of the value it denotes, which reads back as that value; CBOR->JSON of any well-formed item in the common data model writes a text the strict RFC 8259 reading reads as that value; a decoder error is a pump error; a successful pump consumed exactly one item. The library composition is tied to shared.TokenPump with both real codecs by the correspondence run (output bytes, consumed bytes), value preservation is re-checked independently in the harness, the slow route (Unmarshal into interface{} + Marshal) is compared by value, and the refmt CLI (json=cbor, cbor=json) is run black-box on a sample and must produce the library's bytes.",
+    level_text="Proved in Coq (TranscodeProof.v) as compositions of the codec theorems over the lock-step pump model: JSON->CBOR is total on every text the reference reading accepts, consumes exactly one item and writes exactly the RFC 7049 encoding of the value tree read, which decodes to the same tokens up to CBOR's spelling of non-negative integers; it fails iff the reference reading fails. CBOR->JSON of a well-formed item in JSON's data model writes a text the decoder reads as the same tokens up to the documented normalisation (tags dropped, lengths -1, strings coerced to UTF-8, floats through the shortest-digits oracle), and fails iff the input is malformed or outside the data model (for any oracle). JSON->CBOR->JSON returns the same tokens for float-free valid-UTF-8 documents (unconditional) and for floats under the oracle hypothesis; CBOR->CBOR reproduces the tokens and is idempotent. Six natural over-strong variants are refuted by kernel-checked examples (non-string CBOR keys, the 32 MiB cap applying per chunk on reading but per item on re-reading, Int vs Uint, 1.0 -> 1). The library composition is tied to shared.TokenPump with both real codecs by the correspondence run (output bytes, consumed bytes), value preservation is re-checked independently in the harness, the slow route (Unmarshal into interface{} + Marshal) is compared by value, and the refmt CLI is run black-box on a sample and must produce the library's bytes.",
     level_note="The CLI wiring and the slow route are checked by differential execution only (not modelled). Floats crossing to JSON use the shortest-digits oracle. Trusted: Coq kernel, extraction, driver, harness. No axioms.",
     rule="documents of both formats in all spellings, plus truncated ones; non-trivial = pump succeeded on an input of at least 2 bytes; distinct by payload",
     trusted_base=TB_COMMON,
@@ -638,7 +638,7 @@ _OBJ_TB = TB_COMMON + ["reflect, Go map/slice/pointer semantics and the generate
 
 PROPS["C07"] = dict(
     coq="Properties_C07",
-    level_text="Proved in Coq on the big-step marshaller model: for every atlas, type and value the result is either an error or a token list that is the rendering of exactly one well-formed value tree with string keys, exact declared lengths and tags only on the first token of an item, of length bounded by the value's size; the model is total (structural, no fuel exhaustion). Tied to obj.Marshaller token by token over generated types (reflect.StructOf structs, zoo of named types, transforms, unions), values and atlases, including all 2^n emptiness x omitempty combinations for n <= 4.",
+    level_text="Proved in Coq on the big-step marshaller model (ObjProof.v): a successful result is the rendering of exactly one well-formed value tree with untagged string keys, exact declared lengths and tags on first tokens of items only; an error leaves a prefix the token grammar has not rejected; the result is independent of fuel once it is not MFuel, and the marshaller is total for atlases without self-referential mappings (no_empty_routes, wires_not_transforms — the degenerate atlases are exhibited as refutations); the stream is at most 3x the value's size for atlases whose struct routes are pairwise unrelated (true of every autogenerated entry, C19). Tied to obj.Marshaller token by token over generated types (reflect.StructOf structs, zoo of named types, transforms, unions), values and atlases, including all 2^n emptiness x omitempty combinations for n <= 4.",
     level_note="The model is big-step (one function per Go machine); the driver loop (done flag per Step) is compared by the harness (done exactly on the last token, step budget for hangs). Trusted as in trusted_base. No axioms.",
     rule="(type, value, atlas) triples; non-trivial = at least 3 tokens; distinct by payload",
     trusted_base=_OBJ_TB,
@@ -841,8 +841,8 @@ def cmp_c11(payload, impl, model):
 
 PROPS["C11"] = dict(
     coq="Properties_C11",
-    level_text="Proved in Coq: clone = the marshaller's tokens fed to the unmarshaller; by the token round-trip theorem the destination re-marshals to the source's tokens, and in the model with byte-string copying (D8) the destination value is built only from token payloads (fresh storage). Tied to refmt.CloneAtlased by the correspondence run, which also mutates every byte, element, map entry and pointee reachable from the destination and checks the source is unchanged (and vice versa), on values holding byte slices and arrays at every kind of position.",
-    level_note="Storage independence is checked dynamically by exhaustive mutation of each cloned value (the Gallina values are immutable, so aliasing is outside what the model can state); equality and the values themselves come from the model. Trusted as in trusted_base. No axioms.",
+    level_text="Proved in Coq (Alias.v, AliasProof.v) on a storage-identity model of Clone — values annotated with the locations of their mutable storage (backing arrays of slices and byte slices, map tables, pointer targets), the marshaller's tokens carrying a reference only for byte strings, the unmarshaller allocating every container and copying byte strings: for every value the clone exists, has the source's shape, and no location reachable from it is reachable from the source; without the copy (the code before D8) the theorem is refuted by a kernel-evaluated example. Equality of the cloned value is the token round trip of C01 on the object-layer model (clone = unmarshal of the marshaller's own tokens), compared per case. Tied to refmt.CloneAtlased by the correspondence run: the cloned value vs the model's, the addresses of all storage reachable from source and destination (must be disjoint), and mutation of every byte, element, map entry and pointee reachable from either side.",
+    level_note="The storage model is separate from the value model (Gallina values are immutable); it abstracts scalars and does not model omitempty / transforms reshaping values — independence does not depend on them (every container of the destination is allocated by the unmarshaller). Trusted as in trusted_base. No axioms.",
     rule="(type, value, atlas); non-trivial = the value contains a slice, map or pointer; distinct by payload",
     trusted_base=_OBJ_TB,
     assumptions=[],
@@ -868,7 +868,7 @@ def cmp_c17(payload, impl, model):
 
 PROPS["C17"] = dict(
     coq="Properties_C17",
-    level_text="Proved in Coq: the codec models' Reset re-establishes the initial state from any state (phase stacks, some-flag, countdown list), the object-layer models carry no state between calls, and the only state that legitimately survives a call is the reader position incl. the one-byte push-back (C15) — so a call on a reused instance equals the call on a fresh one over the remaining input; items written back to back are read back one per call (decoders consume exactly their item: C02/C04/C05 'rest' theorems). Tied to long-lived refmt Marshaller / Unmarshaller / Cloner instances by random histories with failing calls in between, each call compared with a fresh instance and with the model.",
+    level_text="Proved in Coq: Reset of the four codec models, transcribed field by field from the Go code (Reuse.v), re-establishes the initial state from any state, so a call on a reused encoder/decoder equals the call on a fresh one over the remaining input (C17_*_reuse); the object-layer models carry nothing from call to call; a decoder call consumes only its own item (appending input changes nothing: dec_run_frame, jdec_run_frame — for JSON only a bare top-level number ending the input needs a terminator, refuted otherwise), hence items written back to back (any items that each decode alone; in particular the encoders' own outputs) are read back one per call, in order (dec_many_concat, dec_many_encoded, jdec_many_concat). Tied to long-lived refmt Marshaller / Unmarshaller / Cloner instances by random histories with failing calls in between and calls through another atlas on the same Go types, each call compared with a fresh instance and with the model.",
     level_note="slab-row reuse inside obj.Marshaller/Unmarshaller is not modelled (fresh machine state per value in the model); the history suite is what pins it. Trusted as in trusted_base. No axioms.",
     rule="histories of 2-6 marshal calls + as many unmarshal calls + clone calls (with failing calls); non-trivial = at least 3 successful calls; distinct by payload",
     trusted_base=_OBJ_TB,
@@ -915,7 +915,7 @@ def cmp_c20_untyped(payload, impl, model):
 
 PROPS["C20"] = dict(
     coq="Properties_C20",
-    level_text="Proved in Coq on the marshaller model: tokens carry a tag exactly on the first token of each item whose (static or dynamic) type has a tagged atlas entry (struct maps and transforms; a tagged transform overrides its wire type's own tag), and the CBOR encoder writes each tag head immediately before its item (C02). On the unmarshaller model: a tagged token reaching an untyped slot is unmarshalled as the registered type and stored with that dynamic type, and an unregistered tag is an error. Tied to the code by the obj-marshal suite (tag positions and numbers across all head sizes), foreign CBOR with registered/unregistered/relocated tags decoded into interface{}, and the round-trip bytes.",
+    level_text="Proved in Coq (TagProof.v): wherever a value of a type registered with a tag (struct-map or transform entry) is marshalled — marshal_bare is what every position calls — the first token of its item carries exactly that tag, and tags sit on first tokens of items only (the stream is the flattening of a value tree); the CBOR encoder writes each tag head immediately before its item and the decoder folds it back (C02/C04: rfc_enc / parse_item carry the tag of every node). On the unmarshaller model: a tagged token reaching an untyped slot is unmarshalled as the registered type and stored with that dynamic type; an unregistered tag there is an error on that token. Tied to the code by the obj-marshal suite (tag positions and numbers across all head sizes), foreign CBOR with registered / unregistered / relocated tags decoded into interface{}, and the round-trip bytes.",
     level_note="Trusted as in trusted_base. Entries built with UseTag + MapMorphism/KeyedUnion never emit their tag (outside the property's quantifier; recorded in DESIGN.md). No axioms.",
     rule="obj-marshal / cbor-tags cases; non-trivial = at least one tag in the model's tokens or input; distinct by payload",
     trusted_base=_OBJ_TB,
@@ -949,8 +949,8 @@ def cmp_c08(payload, impl, model):
 
 PROPS["C08"] = dict(
     coq="Properties_C08",
-    level_text="Proved in Coq on the marshaller model: the output depends on a map only through its set of entries (any permutation of the entry list gives the same tokens), map keys are emitted strictly sorted in the configured order (bytewise for default/strings, length-then-bytewise for rfc7049), both comparators are strict total orders so the sorted arrangement is unique (any correct sort must produce it), and struct fields follow the atlas's field order. Tied to the code by marshalling each value 12 times, 9 of them after rebuilding every map with a different insertion order (and bucket churn), in all three modes via atlas default and per-type morphism, for both formats; bytes must all agree with the model's.",
-    level_note="Go's randomised map iteration is exercised, not controlled; the theorem quantifies over all permutations. sort.Sort is assumed to return a sorted permutation (uniqueness proved). Autogenerated struct orders are checked in C19's suite. Trusted as in trusted_base. No axioms.",
+    level_text="Proved in Coq on the marshaller model (DetermProof.v): values that differ only in the order of map entries at any depth (vperm) marshal to identical results provided the serial keys of every map are pairwise distinct (automatic for string keys; for struct keys through a transform it is injectivity of the user's transform, and the theorem C08_non_injective_key_transform_is_order_dependent shows it is needed); the emitted keys of a map are exactly the sorted serial keys in the configured order (atlas default, or the MapMorphism entry's mode), strictly increasing; both orders are strict total orders with the documented meaning (bytewise; length then bytewise); struct keys are the live fields in the atlas entry's order; autogenerated struct entries are sorted by the chosen mode (C19_sorted_by_mode). Tied to the code by marshalling each value 12 times, 9 of them after rebuilding every map with a different insertion order (and bucket churn), in all three modes via atlas default and per-type morphism, for both formats, and by the field order of AutogenerateStructMapEntryUsingTags on generated struct families incl. 13-40 field structs.",
+    level_note="Go's randomised map iteration is exercised, not controlled; the theorem quantifies over all permutations. sort.Sort is modelled as insertion sort with the same comparator (equal results for strict total orders on distinct keys). Trusted as in trusted_base. No axioms.",
     rule="(format, atlas, map-valued type, value); non-trivial = some map with at least 2 entries; distinct by payload",
     trusted_base=_OBJ_TB,
     assumptions=["map keys stringify injectively (generated key transforms are injective)"],
@@ -1103,7 +1103,7 @@ def _autogen_replay_binary(payload):
 
 PROPS["C19"] = dict(
     coq="Properties_C19",
-    level_text="Proved in Coq on a statement-by-statement transcription (Autogen.explore) of exploreFields/dominantField and the three orders: the mapping it produces is, as a set, exactly what Go's promotion rules select on serial names (Autogen.selected: shallowest depth wins, at equal depth the single tagged field wins, ambiguity drops the name, '-' and unexported fields are never candidates), every entry's route resolves to the field it was derived from, names are distinct, and the result is sorted by the chosen mode. Tied to the code by struct type families generated as Go source, compiled, described back through reflect and run through AutogenerateStructMapEntryUsingTags in all three sort modes; values of those types (nil and non-nil embedded pointers) are marshalled through the mapping (tokens compared with the model's marshaller under the model's mapping) and round-tripped through CBOR and JSON with a field-wise oracle.",
+    level_text="Proved in Coq (AutogenProof.v) on a statement-by-statement transcription (Autogen.explore) of exploreFields / dominantField and the three orders, for every struct environment without any well-formedness hypothesis: a field is in the mapping iff Go's promotion rules select it (explore_iff_selected; spelled out: it is a candidate along some embedding path, no same-named candidate is shallower, and at its depth it is the only one or the only tagged one, counting one candidate per path); every entry's route addresses the field it was derived from and carries its type and omitempty flag; a candidate is exported or embedded, not tagged '-', and an embedded field of unexported type contributes only the fields a struct promotes; names are pairwise distinct; the result is strictly sorted by the chosen mode; routes are pairwise unrelated. Tied to the code by struct type families generated as Go source, compiled, described back through reflect and run through AutogenerateStructMapEntryUsingTags in all three sort modes; values of those types (nil / non-nil / mixed embedded pointers) are marshalled through the mapping (tokens compared with the model's marshaller under the model's mapping) and round-tripped through CBOR and JSON with a field-wise oracle.",
     level_note="reflect.StructTag.Get, unicode.IsUpper/ToLower outside the ASCII/Latin-1/Greek/Cyrillic ranges the generator draws from, and sort.Sort are Go's; fields behind a nil embedded pointer to an unexported struct type cannot be allocated by reflection: unmarshal reports an error there, which the oracle accepts. Trusted as in trusted_base.",
     rule="struct type family (root + embedded types) x 3 sort modes x 4 values; non-trivial = the family embeds at least one struct; distinct by payload",
     trusted_base=_OBJ_TB + ["lib/autogen_gen.py renders family specs as Go source; the model's input is the description reflect gives back of the compiled types, not the spec"],
